@@ -29,6 +29,7 @@ remembered block only under a guard on the end of the request; the driver-hole r
 
 Round 6: the whole input handed to a buffer-protocol consumer (unpack_from, memoryview); a
 cursor returned by the previous child is the current cursor.
+Round 7: a strategy installed only for the end-of-string marker may use len(raw).
 """
 import ast
 
